@@ -92,9 +92,6 @@ func runTimingScenario(sc timingScenario) (res timingResult) {
 		if err != nil {
 			return ReqResult{NoResp: err.Error()}, nil
 		}
-		in.core.mu.Lock()
-		in.core.out = outcome{status: 200}
-		in.core.mu.Unlock()
 		cl.nc.SetWriteDeadline(time.Now().Add(watchdog))
 		if err = cl.c.WriteRequest(req); err != nil {
 			return ReqResult{NoResp: err.Error()}, nil
@@ -158,9 +155,6 @@ func runTimingScenario(sc timingScenario) (res timingResult) {
 		}
 		th.Mode = &m
 		req.Header["Transport"] = th.Marshal()
-		in.core.mu.Lock()
-		in.core.out = outcome{status: 200}
-		in.core.mu.Unlock()
 		cl.nc.SetWriteDeadline(time.Now().Add(watchdog))
 		if err := cl.c.WriteRequest(req); err != nil {
 			return fail("timing-setup", "SETUP: %v", err)
